@@ -1,0 +1,5 @@
+//go:build !verif
+
+package objecttree
+
+func verifBeforeCreateTx(treeId string) {}
